@@ -52,7 +52,9 @@ IsInlinedPathItemCycle(line, bad) ==
         /\ \E n \in g.close.back..Len(g.steps) : GKindAt(g, n) = "callback"
 SelfOps == {"schema_self_allof_default", "schema_self_anyof_example", "schema_self_not_default"}
 Class(line, bad) ==
-   IF bad = {"returns_normally"} /\ line.c.base.comps = "full" /\ Len(line.c.muts) = 1 /\ line.c.muts[1].op \in SelfOps
+   \* (one of the mutations -- thorough applies pairs -- is a self-composition operator, and the process dies validating)
+   IF bad = {"returns_normally"} /\ line.c.base.comps = "full" /\ (\E i \in DOMAIN line.c.muts : line.c.muts[i].op \in SelfOps)
+      /\ ("died_in" \in DOMAIN line => line.died_in \in {"load", "validate", "validate_after"})
       /\ (\E s \in DOMAIN line.obs : line.obs[s] \in {"crash", "hang"}) THEN "self_composition_value_check_overflows" ELSE   \* ("hang": the watchdog may fire before the 1 GB stack is used up)
    IF IsInlinedPathItemCycle(line, bad) THEN "internalize_inlines_path_item_cycle" ELSE
    LET ms == (IF "applied" \in DOMAIN line THEN line.applied ELSE <<>>)  msg == IF "msg" \in DOMAIN line THEN line.msg ELSE "" IN
